@@ -33,6 +33,11 @@ pub struct Case {
     pub shape: u8,
     pub len: u32,
     pub attach: bool,
+    /// run at the platform level (`ipc_channel::platform`): raw bytes, and the lists of channels
+    /// and regions the receiver obtains are compared exactly (the typed layer silently drops
+    /// attachments that the value does not reference)
+    #[serde(default)]
+    pub platform: bool,
 }
 
 fn shape_len(shape: u8, len: u32) -> usize {
@@ -63,8 +68,8 @@ impl Prop for C13 {
         let (f1, f) = c01::capacities();
         let max = (f1 + 8 * f).min(2_000_000) as u32;
         // random masks over 64 attempts (sparse and dense), random lengths
-        (prop_oneof![any::<u64>(), (any::<u64>(), any::<u64>()).prop_map(|(a, b)| a & b), (any::<u64>(), any::<u64>(), any::<u64>()).prop_map(|(a, b, c)| a & b & c)], 1u32..max, any::<bool>())
-            .prop_map(|(mask, len, attach)| Case { mask, shape: 5, len, attach })
+        (prop_oneof![any::<u64>(), (any::<u64>(), any::<u64>()).prop_map(|(a, b)| a & b), (any::<u64>(), any::<u64>(), any::<u64>()).prop_map(|(a, b, c)| a & b & c)], 1u32..max, any::<bool>(), any::<bool>())
+            .prop_map(|(mask, len, attach, platform)| Case { mask, shape: 5, len, attach, platform })
             .boxed()
     }
 
@@ -73,7 +78,8 @@ impl Prop for C13 {
         for shape in 0..5u8 {
             for attach in [false, true] {
                 for mask in 0..1024u64 {
-                    v.push(Case { mask, shape, len: 0, attach });
+                    v.push(Case { mask, shape, len: 0, attach, platform: false });
+                    v.push(Case { mask, shape, len: 0, attach, platform: true });
                 }
             }
         }
@@ -82,11 +88,107 @@ impl Prop for C13 {
 
     fn exec(_ctx: &Ctx, case: &Case) -> Result<Outcome, Failure> {
         let fds0 = fdsnap::count_fds();
-        let out = one(case)?;
+        let out = if case.platform && !cfg!(feature = "inproc") { one_platform(case)? } else { one(case)? };
         let fds1 = fdsnap::count_fds();
         ensure!(fds0 == fds1, "enobufs:descriptors-leaked", "descriptor count {} -> {} after a send with ENOBUFS mask {:#x}", fds0, fds1, case.mask);
         Ok(out)
     }
+}
+
+/// The same experiment one layer down: `platform::OsIpcSender::send(bytes, channels, regions)`.
+#[cfg(not(feature = "inproc"))]
+fn one_platform(case: &Case) -> Result<Outcome, Failure> {
+    use ipc_channel::platform::{self, OsIpcChannel, OsIpcSharedMemory};
+    let len = shape_len(case.shape, case.len).max(payload::HEADER);
+    let inc = |e: String| Failure::inconclusive(format!("platform channel: {}", e));
+    let (tx, rx) = platform::channel().map_err(|e| inc(e.to_string()))?;
+    let (ptx, prx) = platform::channel().map_err(|e| inc(e.to_string()))?;
+    let (qtx, qrx) = platform::channel().map_err(|e| inc(e.to_string()))?;
+    let data = payload::make(1, 0, 0, len, case.mask.wrapping_mul(31) + len as u64);
+    let region_bytes = payload::stream(case.mask ^ 7, 5000);
+    let (channels, regions) = if case.attach {
+        (vec![OsIpcChannel::Sender(ptx.clone()), OsIpcChannel::Receiver(qrx)], vec![OsIpcSharedMemory::from_bytes(&region_bytes)])
+    } else {
+        drop(qrx);
+        (vec![], vec![])
+    };
+    let (want_channels, want_regions) = (channels.len(), regions.len());
+    let trunc0 = ip::N_TRUNC.load(SeqCst);
+    let receiver = std::thread::spawn(move || {
+        let mut results = vec![];
+        for _ in 0..4 {
+            let r = rx.recv();
+            let fin = matches!(&r, Ok((d, _, _)) if &d[..] == b"fin");
+            results.push(r);
+            if fin {
+                break;
+            }
+        }
+        results
+    });
+    ip::arm(ip::gettid(), case.mask, -1);
+    let r = tx.send(&data, channels, regions);
+    let attempts = ip::TX_ATTEMPTS.load(SeqCst);
+    let injected = ip::ENOBUFS_INJECTED.load(SeqCst);
+    ip::disarm();
+    let r2 = tx.send(b"fin", vec![], vec![]);
+    ensure!(r2.is_ok(), "enobufs:follow-on-send-failed", "platform level: the message after the faulty send could not be sent: {:?}", r2.map_err(|e| e.to_string()));
+    let what = format!("platform level, mask {:#x}, {} bytes, {} injected of {} attempts, send result {:?}", case.mask, len, injected, attempts, r.as_ref().map_err(|e| e.to_string()));
+    let mut results = match sandbox::watched(move || receiver.join()) {
+        Ok(Ok(v)) => v,
+        Ok(Err(_)) => fail!("enobufs:receiver-panicked", "the receiver panicked ({}): {:?}", what, crate::take_panics()),
+        Err(h) => return Err(sandbox::hang_failure("enobufs:receiver-hangs", &format!("receiver ({})", what), h)),
+    };
+    let trunc1 = ip::N_TRUNC.load(SeqCst);
+    ensure!(trunc0 == trunc1, "enobufs:packet-truncated-at-receiver", "a packet transmitted during the retries was larger than the buffer the receiver offered (MSG_TRUNC seen): {}", what);
+    ensure!(matches!(results.last(), Some(Ok((d, c, g))) if &d[..] == b"fin" && c.is_empty() && g.is_empty()), "enobufs:follow-on-lost", "the follow-on message did not arrive intact ({})", what);
+    results.pop();
+    let mut partial = false;
+    if r.is_ok() {
+        ensure!(results.len() == 1, "enobufs:ok-but-not-delivered-once", "send returned Ok but the receiver saw {} result(s) before the follow-on ({})", results.len(), what);
+        let (d, mut chans, regs) = match results.pop().unwrap() {
+            Ok(x) => x,
+            Err(e) => fail!("enobufs:ok-but-receiver-error", "send returned Ok but the receiver got {:?} ({})", e, what),
+        };
+        ensure!(d == data, "enobufs:ok-but-altered", "send returned Ok but {} bytes arrived instead of the {} sent, first difference at {:?} ({})", d.len(), data.len(), payload::first_diff(&d, &data), what);
+        ensure!(chans.len() == want_channels && regs.len() == want_regions, "enobufs:attachment-lists-differ", "send returned Ok; {} channels and {} regions were attached, {} channels and {} regions arrived ({})", want_channels, want_regions, chans.len(), regs.len(), what);
+        if case.attach {
+            ensure!(&regs[0][..] == &region_bytes[..], "enobufs:ok-but-altered", "the attached region arrived with other contents ({})", what);
+            let (mut c1, mut c0) = (chans.pop().unwrap(), chans.pop().unwrap());
+            let q = c1.to_receiver();
+            let t = c0.to_sender();
+            t.send(b"probe-p", vec![], vec![]).map_err(|e| Failure::new("enobufs:probe-failed", e.to_string()))?;
+            ensure!(matches!(prx.try_recv(), Ok((d, _, _)) if &d[..] == b"probe-p"), "enobufs:foreign-sender", "the attached sender arrived as a different channel ({})", what);
+            qtx.send(b"probe-q", vec![], vec![]).map_err(|e| Failure::new("enobufs:probe-failed", e.to_string()))?;
+            ensure!(matches!(q.try_recv(), Ok((d, _, _)) if &d[..] == b"probe-q"), "enobufs:foreign-receiver", "the attached receiver arrived as a different channel ({})", what);
+        }
+    } else {
+        ensure!(results.len() <= 1, "enobufs:err-but-delivered", "send failed but the receiver saw {} results before the follow-on ({})", results.len(), what);
+        if let Some(x) = results.pop() {
+            match x {
+                Ok((d, _, _)) => fail!("enobufs:err-but-message-delivered", "send returned an error but the receiver obtained a complete-looking message of {} bytes ({})", d.len(), what),
+                Err(_) => partial = true,
+            }
+        }
+    }
+    let nontrivial = (case.mask != 0 && injected > 0 && r.is_ok()) || (r.is_err() && attempts > injected);
+    let class = format!(
+        "platform/{}{}{}",
+        match (r.is_ok(), injected) {
+            (true, 0) => "ok/no-fault-hit",
+            (true, _) => "ok/recovered",
+            (false, _) if attempts > injected => "err/after-partial-transmission",
+            (false, _) => "err/nothing-transmitted",
+        },
+        if case.attach { "+attachments" } else { "" },
+        if partial { "+receiver-saw-abort" } else { "" }
+    );
+    Ok(Outcome::new(nontrivial, class).with("enobufs_injected", injected as u64).with("transmission_attempts", attempts as u64))
+}
+
+#[cfg(feature = "inproc")]
+fn one_platform(case: &Case) -> Result<Outcome, Failure> {
+    one(case)
 }
 
 fn one(case: &Case) -> Result<Outcome, Failure> {
